@@ -2222,7 +2222,7 @@ func (x *Exec) pickBehavior(fn *ssa.Function, name string, args []Value) *FuncSp
 	}
 	var cands, unsure []*FuncSpec
 	for _, sp := range bs {
-		if sp.NoSafety {
+		if sp.NoSafety || sp.ProofOnly {
 			continue
 		}
 		ok, confirmed := true, true
